@@ -1,8 +1,385 @@
-import Karp.Driver.Proto
+import Karp.Driver.ScenarioJson
+import Karp.Spec.NeedCapacity
+import Karp.Model.Provision
 
 namespace Karp.Driver.C04
-open Lean Karp.Driver
+open Lean Karp.Driver Karp.Driver.ScenarioJson Karp.Scn Karp.Req Karp.Spec.NeedCapacity
 
-def handle : Handler := fun op _ _ => .error s!"unknown op {op}"
+/-! ### decoding -/
+
+structure TraceEv where
+  ev : Event
+  prefsLeft : Nat
+  pns : Bool
+
+def kindOf (s : String) : Except String Kind :=
+  match s with
+  | "existing" => pure .existing
+  | "inflight" => pure .inflight
+  | "new" => pure .new
+  | _ => throw s!"bad trace kind {s}"
+
+def traceEv (j : Json) : Except String TraceEv := do
+  let cl ← match fldOpt j "claim" with
+    | none => pure none
+    | some c => do pure (some (← claim c))
+  pure { ev := { kind := ← kindOf (← strF j "kind"), pod := ← strF j "pod", target := ← strF j "target",
+                 termsLeft := ← natF j "terms", claim := cl },
+         prefsLeft := ← natF j "prefs", pns := ← boolD j "pns" false }
+
+structure PassObs where
+  stage : String
+  synced : Bool
+  nodes : List Node
+  out : Outcome
+  err : String
+  trace : List TraceEv
+  views : List Json
+
+def passObs (j : Json) : Except String PassObs := do
+  let o ← fld j "outcome"
+  let err := match fldOpt o "err" with | some (.str e) => e | _ => ""
+  pure { stage := ← strF j "stage", synced := ← boolF j "synced", nodes := ← listF node j "nodes",
+         out := ← outcome o, err := err, trace := ← listF traceEv j "trace", views := ← arrD j "views" }
+
+/-! ### the model's replay of a pass (`allowed`): every add the scheduler made to an existing node is enabled in the
+model, and whenever a pod of the property's class went to a NodeClaim of the pass, `ExistingNode.CanAdd` (model) refuses
+it on every active node in the state of that moment -/
+
+open Karp.Sched in
+def podAt (p : Pod) (e : TraceEv) : PodSpecM :=
+  let sp := podSpecOf p
+  let k := sp.aff.required.length - e.ev.termsLeft
+  let kp := sp.aff.preferred.length - e.prefsLeft
+  let tol := if e.pns && !hasPNS sp.tolerations then sp.tolerations ++ [pnsToleration] else sp.tolerations
+  { sp with aff := { required := sp.aff.required.drop k, preferred := sp.aff.preferred.drop kp }, tolerations := tol }
+
+open Karp.Sched in
+def replayWith (daemonPNS : Bool) (s : Scenario) (trace : List TraceEv) : Option String :=
+  let init : List (String × ExNode) := s.nodes.filterMap (fun n =>
+    if n.deleting then none else (Karp.Provision.viewNodeWith daemonPNS s n).map (fun ex => (n.name, ex)))
+  let rec go (st : List (String × ExNode)) : List TraceEv → Option String
+    | [] => none
+    | e :: rest =>
+      match s.pod? e.ev.pod with
+      | none => some s!"trace names unknown pod {e.ev.pod}"
+      | some p =>
+        let pd := podDOf s.ignorePreferences (podAt p e)
+        match e.ev.kind with
+        | .existing =>
+          match st.lookup e.ev.target with
+          | none => some s!"pod {p.name} was added to {e.ev.target}, which the model does not list among the active nodes"
+          | some ex =>
+            if !existingCanAdd ex pd then some s!"the scheduler added pod {p.name} to node {e.ev.target}; the model of ExistingNode.CanAdd refuses it there"
+            else go (st.map (fun (n, x) => if n == e.ev.target then (n, existingAdd x pd) else (n, x))) rest
+        | _ =>
+          if plain s p then
+            match st.find? (fun (_, ex) => existingCanAdd ex pd) with
+            | some (n, _) => some s!"pod {p.name} went to a NodeClaim of the pass; the model of ExistingNode.CanAdd admits it on node {n} (guard of OpenNew violated in the model)"
+            | none => go st rest
+          else go st rest
+  go init trace
+
+/-- the daemon pods carry the PreferNoSchedule toleration iff some NodeClaimTemplate had instance types left (a side
+    effect of building the overhead groups): the model allows either, consistently for the whole pass -/
+def replay (s : Scenario) (trace : List TraceEv) : Option String :=
+  match replayWith true s trace with
+  | none => none
+  | some w => if (replayWith false s trace).isNone then none else some w
+
+/-! ### the model's view of the in-flight nodes of a history (`allowed`) -/
+
+def taintKey (t : Taint) : String := t.key ++ "|" ++ t.value ++ "|" ++ t.effect
+def sortStrs (l : List String) : List String := (l.toArray.qsort (· < ·)).toList
+
+open Karp.Sched in
+def viewsAgree (s : Scenario) (nodes : List Node) (views : List Json) : Except String (Option String) := do
+  let mut bad : Option String := none
+  for v in views do
+    let name ← strF v "name"
+    match nodes.find? (·.name == name) with
+    | none => bad := bad <|> some s!"view of unknown node {name}"
+    | some n =>
+      let taints ← listF taint v "taints"
+      let mt := sortStrs ((viewTaints s n).map taintKey)
+      let rt := sortStrs (taints.map taintKey)
+      if mt != rt then bad := bad <|> some s!"node {name} at stage {n.stage}: StateNode.Taints() = {rt}, model viewTaints = {mt}"
+      let reg ← boolF v "registered"
+      let ini ← boolF v "initialized"
+      let mreg := n.stage == "registered" || n.stage == "initialized"
+      let mini := n.stage == "initialized"
+      if reg != mreg || ini != mini then bad := bad <|> some s!"node {name} at stage {n.stage}: Registered/Initialized = {reg}/{ini}, model = {mreg}/{mini}"
+      let del ← boolD v "deleting" false
+      if del != n.deleting then bad := bad <|> some s!"node {name} at stage {n.stage}: MarkedForDeletion() = {del}, the history marked it = {n.deleting}"
+      match s.it? n.it with
+      | none => bad := bad <|> some s!"node {name}: unknown instance type {n.it}"
+      | some it =>
+        let c ← intF v "allocCPU"
+        let m ← intF v "allocMem"
+        let p ← intF v "allocPods"
+        if c != it.allocCPU || m != it.mem || p != it.pods then
+          bad := bad <|> some s!"node {name} at stage {n.stage}: StateNode.Allocatable() = {c}m/{m}Mi/{p} pods, the instance type it was launched as has {it.allocCPU}m/{it.mem}Mi/{it.pods}"
+      -- the labels the scheduler sees must contain the model's view labels
+      let labs ← listF (fun j => do let a ← asArr j; match a with | [k, x] => pure ((← asStr k), (← asStr x)) | _ => throw "label pair") v "labels"
+      for (k, x) in viewLabels s n do
+        if k == "kubernetes.io/hostname" then continue
+        if (viewLabels s n).lookup k != some x then continue   -- shadowed duplicate
+        if labs.lookup k != some x then
+          bad := bad <|> some s!"node {name} at stage {n.stage}: StateNode.Labels()[{k}] = {labs.lookup k}, model says {x}"
+  pure bad
+
+/-! ### verdicts -/
+
+def sigOf (why : String) (dflt : String) : String :=
+  if why.startsWith "[" then ((why.splitOn "]").head!.drop 1).toString else dflt
+
+def traceConsistent (out : Outcome) (trace : List TraceEv) : Option String :=
+  let placed := out.existing.flatMap (·.2) ++ out.claims.flatMap (·.pods)
+  let traced := trace.map (·.ev.pod)
+  if sortStrs placed != sortStrs traced then some s!"[trace] commit trace {sortStrs traced} does not match the placements of the result {sortStrs placed}"
+  else
+    -- every pod traced to an existing node is reported on that node
+    match trace.find? (fun e => e.ev.kind == .existing && !((out.existing.lookup e.ev.target).getD []).contains e.ev.pod) with
+    | some e => some s!"[trace] pod {e.ev.pod} was committed to node {e.ev.target} but the result does not list it there"
+    | none => none
+
+structure Verdict where
+  spec : Option String := none      -- property violated on the implementation
+  model : Option String := none     -- model disagrees with the implementation
+
+def Verdict.merge (a b : Verdict) : Verdict := { spec := a.spec <|> b.spec, model := a.model <|> b.model }
+
+def judgePass (s : Scenario) (p : PassObs) : Verdict :=
+  if p.err != "" then {} else
+  let cands := scenarioCandidates s p.out ++ (p.trace.filterMap (·.ev.claim)).flatMap (fun c => c.reqs.flatMap (fun (_, r) => r.values))
+  let cands := cands.eraseDups
+  let specV := (traceConsistent p.out p.trace) <|> passOK s cands (p.trace.map (·.ev))
+  { spec := specV.map (fun w => s!"{w} (pass at stage {p.stage})"), model := (replay s p.trace).map (fun w => s!"{w} (pass at stage {p.stage})") }
+
+def toResp (v : Verdict) (dflt : String) : Resp :=
+  match v.spec with
+  | some w => { allowed := some v.model.isNone, spec := some false, why := w, extra := some (jObj [("signature", jStr (sigOf w dflt))]) }
+  | none => { allowed := some v.model.isNone, spec := some true, why := v.model.getD "" }
+
+/-- `c04.pass`: one real pass with its commit trace -/
+def opPass (inp impl : Json) : Except String Resp := do
+  let s ← scenario inp
+  if (fldOpt impl "panic").isSome then return { allowed := some false, spec := some false, why := "the scheduler panicked" }
+  let p ← passObs impl
+  pure (toResp (judgePass s p) "pass")
+
+/-- `c04.history`: pass 1, creation, the gate, adversarial launch, and pass 2 at every lifecycle stage -/
+def opHistory (strict : Bool) (inp impl : Json) : Except String Resp := do
+  let s ← scenario (← fld inp "scenario")
+  if (fldOpt impl "panic").isSome then return { allowed := some false, spec := some false, why := "the real code panicked" }
+  if let some (.str e) := fldOpt impl "harness_error" then throw s!"harness error: {e}"
+  let p1 ← passObs (← fld impl "pass1")
+  let mut v := judgePass s p1
+  let created ← natF impl "created"
+  let syncedBefore ← boolF impl "syncedBefore"
+  if !syncedBefore then
+    v := v.merge { model := some "Cluster.Synced() is false although cluster state holds every node and NodeClaim of the API" }
+  if created == 0 then return toResp v "history"
+  -- the gate
+  let syncedAfterCreate ← boolF impl "syncedAfterCreate"
+  if syncedAfterCreate then
+    v := v.merge { spec := some s!"[gate] Cluster.Synced() is true right after {created} NodeClaim(s) were created and before any of them was launched: a scheduling pass may run" }
+  if (← boolD impl "gateRan" false) then
+    let b ← natF impl "gateClaimsBefore"
+    let a ← natF impl "gateClaimsAfter"
+    let ran ← boolD impl "gatePassRan" false
+    if a != b || ran then
+      v := v.merge { spec := some s!"[gate] Provisioner.Reconcile ran a scheduling pass while {created} created NodeClaim(s) were not launched yet (NodeClaims in the API: {b} before, {a} after)" }
+  let launchErr := match fldOpt impl "launchErr" with | some (.str e) => e | _ => ""
+  if launchErr != "" then return toResp v "history"
+  let during ← boolList (← fld impl "syncedDuringLaunch")
+  for (b, k) in during.zipIdx do
+    let want := syncedExpected created (k + 1)
+    if b != want then
+      let w := s!"[gate] after {k + 1} of {created} created NodeClaims were launched Cluster.Synced() = {b}"
+      v := v.merge (if b then { spec := some w } else { model := some w })
+  -- what pass 1 placed on capacity that exists afterwards
+  let launched ← arrD impl "launched"
+  let mut onLaunched : List (String × List String) := []
+  for l in launched do
+    onLaunched := onLaunched ++ [((← strF l "name"), (← listF asStr l "pods"))]
+  let placedBefore1 := p1.out.existing ++ onLaunched
+  -- pass 2 at every stage
+  for pj in (← arrD impl "passes") do
+    let p ← passObs pj
+    let s' := { s with nodes := s.nodes ++ p.nodes }
+    let pv := judgePass s' p
+    v := v.merge pv
+    if !p.synced then v := v.merge { model := some s!"Cluster.Synced() is false at stage {p.stage} although every NodeClaim is launched" }
+    match ← viewsAgree s' p.nodes p.views with
+    | some w => v := v.merge { model := some w }
+    | none => pure ()
+    if strict && pv.spec.isNone && p.err == "" then
+      -- pods pass 1 placed on capacity that can (by this specification's own reading) hold them together
+      let placedBefore := placedBefore1.flatMap (fun (nn, pods) =>
+        match s'.node? nn with
+        | none => []
+        | some n =>
+          let ps := pods.filterMap s'.pod?
+          if ps.length == pods.length && ps.all (fun q => nodeAdmits s' n (ps.filter (·.name != q.name)) q) then pods else [])
+      let re := reopened s' placedBefore p.out
+      if !re.isEmpty then
+        -- did the pass move pods between the nodes pass 1 had assigned them to?
+        let displaced := p.out.existing.any (fun (n, pods) =>
+          match onLaunched.lookup n with
+          | some own => pods.any (fun x => !own.contains x)
+          | none => match p1.out.existing.lookup n with
+            | some own => pods.any (fun x => !own.contains x)
+            | none => !pods.isEmpty)
+        let tag := if displaced then "[reshuffle]" else "[reopened]"
+        v := v.merge { spec := some s!"{tag} re-running provisioning at stage {p.stage} put {re} on a new NodeClaim although pass 1 had already placed them on capacity that is still there" }
+  pure (toResp v "history")
+
+
+/-! ### `c04.view`: StateNode accessors -/
+
+open Karp.Provision in
+def resOf (j : Json) : Except String Res := do
+  let f (k : String) : Except String Int := do
+    let v ← intF j k
+    pure (if v < 0 then 0 else v)       -- a missing quantity reads as zero
+  pure { cpu := ← f "cpu", mem := ← f "mem", pods := ← f "pods" }
+
+def sortPairs (l : List (String × String)) : List (String × String) := (l.toArray.qsort (fun a b => a.1 < b.1)).toList
+
+open Karp.Provision in
+def opView (inp impl : Json) : Except String Resp := do
+  if (fldOpt impl "panic").isSome then return { allowed := some false, spec := some false, why := "cluster state panicked" }
+  let claimJ := fldOpt inp "claim"
+  let nodeJ := fldOpt inp "node"
+  let marked ← boolD inp "marked" false
+  let claim : Option ClaimObj ← match claimJ with
+    | none => pure none
+    | some c => do
+      let del ← boolD c "deleting" false
+      let term ← boolD c "terminating" false
+      pure (some { name := "claim-a", labels := ← labelsF c "labels", taints := ← listF taint c "taints",
+                   startupTaints := ← listF taint c "startupTaints", alloc := ← resOf (← fld c "alloc"), deleting := del || term })
+  let nodeRaw : Option (NodeObj × Bool) ← match nodeJ with
+    | none => pure none
+    | some n => do
+      pure (some ({ name := "node-a", labels := ← labelsF n "labels", taints := ← listF taint n "taints", alloc := ← resOf (← fld n "alloc") },
+                  ← boolD n "deleting" false))
+  -- `Cluster.UpdateNode` ignores a managed node without an instance-type label until it is initialized
+  let node : Option (NodeObj × Bool) := nodeRaw.filter (fun (nd, _) =>
+    !((nd.labels.lookup "karpenter.sh/nodepool").getD "" != "" && (nd.labels.lookup "node.kubernetes.io/instance-type").getD "" == "" &&
+      (nd.labels.lookup Karp.Gen.C04Flow.nodeInitializedLabelKey).getD "" == ""))
+  let tracked := claim.isSome || node.isSome
+  let sn : SNode := { node := node.map (·.1), claim := claim, marked := marked && tracked, nodeDeleting := (node.map (·.2)).getD false }
+  let a := sn.allocatable
+  let model : Json :=
+    if !tracked then
+      jObj [("tracked", jBool false), ("managed", jBool false), ("registered", jBool false), ("initialized", jBool false), ("name", jStr ""),
+            ("labels", jArr []), ("taints", jArr []), ("alloc", jObj [("cpu", jInt 0), ("mem", jInt 0), ("pods", jInt 0)]),
+            ("markedForDeletion", jBool false), ("active", jBool false)]
+    else
+      jObj [("tracked", jBool true), ("managed", jBool sn.managed), ("registered", jBool sn.registered), ("initialized", jBool sn.initialized),
+            ("name", jStr sn.name),
+            ("labels", jArr ((sortPairs sn.labels).map (fun (k, v) => jArr [jStr k, jStr v]))),
+            ("taints", jArr (sn.taints.map (fun t => jObj [("key", jStr t.key), ("value", jStr t.value), ("effect", jStr t.effect)]))),
+            ("alloc", jObj [("cpu", jInt a.cpu), ("mem", jInt a.mem), ("pods", jInt a.pods)]),
+            ("markedForDeletion", jBool sn.markedForDeletion), ("active", jBool (!sn.markedForDeletion))]
+  -- the property's reading of the view, on what the real StateNode presented
+  let iTracked ← boolF impl "tracked"
+  let mut why : Option String := none
+  if iTracked then
+    let iInit ← boolF impl "initialized"
+    let iTaints ← listF taint impl "taints"
+    let iAlloc ← resOf (← fld impl "alloc")
+    let iActive ← boolF impl "active"
+    match claim with
+    | some c =>
+      if !iInit then
+        match iTaints.find? (fun t => Karp.Spec.Admissible.ephemeralTaint t || c.startupTaints.any (fun st => st.key == t.key && st.effect == t.effect)) with
+        | some t => why := why <|> some s!"[view-taints] the in-flight node is not initialized but presents the startup / ephemeral taint {t.key}:{t.effect} to the scheduler"
+        | none => pure ()
+        let want (nodeV claimV : Int) : Int := if node.isSome && nodeV > 0 then nodeV else claimV
+        let nd : Res := (node.map (·.1.alloc)).getD { cpu := 0, mem := 0, pods := 0 }
+        let w : Res := { cpu := want nd.cpu c.alloc.cpu, mem := want nd.mem c.alloc.mem, pods := want nd.pods c.alloc.pods }
+        if iAlloc != w then
+          why := why <|> some s!"[view-alloc] the in-flight node presents allocatable {iAlloc.cpu}m/{iAlloc.mem}Mi/{iAlloc.pods}; NodeClaim promises {c.alloc.cpu}m/{c.alloc.mem}Mi/{c.alloc.pods}, node reports {nd.cpu}m/{nd.mem}Mi/{nd.pods} (zero = not reported yet)"
+      if (marked || c.deleting) && iActive then
+        why := why <|> some "[view-deleting] a node marked for deletion (or whose NodeClaim is being deleted) survives StateNodes.Active() and would be counted as capacity"
+    | none =>
+      if (marked || ((node.map (·.2)).getD false)) && iActive then
+        why := why <|> some "[view-deleting] a node marked for deletion survives StateNodes.Active() and would be counted as capacity"
+  pure { model := some model, spec := some why.isNone, why := why.getD "",
+         extra := why.map (fun w => jObj [("signature", jStr (sigOf w "view"))]) }
+
+/-! ### `c04.synced`: the gate -/
+
+open Karp.Provision in
+structure SyncSim where
+  st : Sync
+  apiPid : List (String × String)     -- NodeClaims in the API with their provider ids
+
+open Karp.Provision in
+def simOp (m : SyncSim) (op : String) : Except String SyncSim := do
+  let parts := op.splitOn ":"
+  let kind := parts.head!
+  let n := (parts.drop 1).headD ""
+  let inApi := m.apiPid.any (·.1 == n)
+  match kind with
+  | "api-claim" =>
+    if inApi then pure m else pure { st := { m.st with apiClaims := n :: m.st.apiClaims }, apiPid := m.apiPid ++ [(n, "")] }
+  | "create" =>
+    if inApi then pure m else
+      pure { st := { (m.st.updateNodeClaim n "") with apiClaims := n :: m.st.apiClaims }, apiPid := m.apiPid ++ [(n, "")] }
+  | "see-claim" =>
+    match m.apiPid.lookup n with
+    | none => pure m
+    | some pid => pure { m with st := m.st.updateNodeClaim n pid }
+  | "launch" =>
+    match m.apiPid.lookup n with
+    | some "" => pure { m with apiPid := m.apiPid.map (fun (k, v) => if k == n then (k, "fake:///" ++ n) else (k, v)) }
+    | _ => pure m
+  | "del-claim" =>
+    pure { st := { (m.st.deleteNodeClaim n) with apiClaims := m.st.apiClaims.filter (· != n) }, apiPid := m.apiPid.filter (·.1 != n) }
+  | "api-node" =>
+    if m.st.apiNodes.contains n then pure m else pure { m with st := { m.st with apiNodes := n :: m.st.apiNodes } }
+  | "see-node" =>
+    if m.st.apiNodes.contains n then pure { m with st := m.st.updateNode n } else pure m
+  | "del-node" =>
+    pure { m with st := { (m.st.deleteNode n) with apiNodes := m.st.apiNodes.filter (· != n) } }
+  | "unsync" => pure { m with st := { m.st with hasSynced := false } }
+  | _ => throw s!"bad op {op}"
+
+open Karp.Provision in
+def opSynced (inp impl : Json) : Except String Resp := do
+  if (fldOpt impl "panic").isSome then return { allowed := some false, spec := some false, why := "cluster state panicked" }
+  let ops ← listF asStr inp "ops"
+  let mut m : SyncSim := { st := { hasSynced := false, claims := [], nodes := [], apiClaims := [], apiNodes := [] }, apiPid := [] }
+  let mut verdicts : List Bool := []
+  let mut unl : List (List String) := []
+  for op in ops do
+    m ← simOp m op
+    let (ok, st') := m.st.synced
+    m := { m with st := st' }
+    verdicts := verdicts ++ [ok]
+    unl := unl ++ [sortStrs ((m.st.claims.filter (·.2 == "")).map (·.1))]
+  let model := jObj [("synced", jArr (verdicts.map jBool)), ("unlaunched", jArr (unl.map (fun l => jArr (l.map jStr))))]
+  -- the gate, on what the real cluster reported
+  let iSynced ← boolList (← fld impl "synced")
+  let iUnl ← listOf strList (← fld impl "unlaunched")
+  let bad := (iSynced.zip iUnl).zipIdx.find? (fun ((b, u), _) => b && !u.isEmpty)
+  match bad with
+  | some ((_, u), i) =>
+    let w := s!"[gate] after event {i} Cluster.Synced() is true while NodeClaim(s) {u} tracked by cluster state are not launched: a scheduling pass may run"
+    pure { model := some model, spec := some false, why := w, extra := some (jObj [("signature", jStr "gate")]) }
+  | none => pure { model := some model, spec := some true }
+
+def handle : Handler := fun op inp impl =>
+  match op with
+  | "c04.history" => opHistory false inp impl
+  | "c04.repass" => opHistory true inp impl
+  | "c04.pass" => opPass inp impl
+  | "c04.view" => opView inp impl
+  | "c04.synced" => opSynced inp impl
+  | _ => .error s!"unknown op {op}"
 
 end Karp.Driver.C04
